@@ -169,7 +169,7 @@ fn main() {
         }
         "pure" => { pure::run(seed, &out, args.iter().any(|a| a == "--thorough")); true }
         "ack" => { ack::run(&out, arg(&args, "--polls").and_then(|s| s.parse().ok()).unwrap_or(2), arg(&args, "--schedule")); true }
-        "conc" => conc::run(seed, &out, &args),
+        "conc" => match arg(&args, "--script") { Some(path) => conc::run_script(&path, &out), None => conc::run(seed, &out, &args) },
         "stress" => { stress::run(seed, &out, arg(&args, "--millis").and_then(|s| s.parse().ok()).unwrap_or(700)); true }
         "locks" => locks::run(seed, &out, arg(&args, "--millis").and_then(|s| s.parse().ok()).unwrap_or(1500)),
         _ => { eprintln!("unknown mode"); false }
